@@ -73,7 +73,11 @@ func QUICID2Spec(id QUICID) (QUICSpec, error) {
 				InitPacketNumber:       1, // Chrome is special that it starts with 1 not 0
 				ClientTokenLength:      0,
 				FrameBuilder: &QUICRandomFrames{ // Chrome randomly inserts padding frames
-					MinPING:    0,
+					// At least one PING: the set of frame types in the Initial must not depend on
+					// the draw. With MinPING 0 about one dial in ten carried no PING frame, and a
+					// fingerprinter hashing the frame-type set (clienthellod) then computed an ID
+					// other than QUICChrome_115's recorded Fingerprint.
+					MinPING:    1,
 					MaxPING:    10,
 					MinCRYPTO:  1,
 					MaxCRYPTO:  10,
@@ -190,7 +194,11 @@ func QUICID2Spec(id QUICID) (QUICSpec, error) {
 				InitPacketNumber:       1, // Chrome is special that it starts with 1 not 0
 				ClientTokenLength:      0,
 				FrameBuilder: &QUICRandomFrames{ // Chrome randomly inserts padding frames
-					MinPING:    0,
+					// At least one PING: the set of frame types in the Initial must not depend on
+					// the draw. With MinPING 0 about one dial in ten carried no PING frame, and a
+					// fingerprinter hashing the frame-type set (clienthellod) then computed an ID
+					// other than QUICChrome_115's recorded Fingerprint.
+					MinPING:    1,
 					MaxPING:    10,
 					MinCRYPTO:  1,
 					MaxCRYPTO:  10,
